@@ -39,6 +39,10 @@ def gen_inputs(rng, styled_p=0.5, out_p=0.0, max_models=2):
         return [("Root", [gen.gen_polymorphic_child(rng)])]
     if r < 0.53:
         return [("Root", [gen.gen_hidden_union_merge(rng)])]
+    if r < 0.57:
+        return [("Root", gen.gen_nested_containers(rng))]
+    if r < 0.62:
+        return [("Root", [gen.gen_empty_vs_concrete_merge(rng)])]
     n = rng.choice([1] * 3 + [2] * (max_models > 1))
     kp = gen.key_pool(rng, styled_p, out_p)
     out = []
@@ -55,6 +59,8 @@ def gen_job(rng, fw=None, layout=None):
     job = _gen_job(rng, fw, layout)
     if rng.random() < 0.25:
         job["renderFirst"] = "nested" if job["layout"] == "flat" else "flat"
+    elif job["convertUnicode"] and rng.random() < 0.2:
+        job["structureReuse"] = True
     return job
 
 
